@@ -47,6 +47,9 @@ def generate():
     need(t, r"meta\.bandwidth = \(bandwidth > 0\)\.then_some\(bandwidth\);", "bandwidth 0 = none", pa)
     need(t, r"let link_count = if_meta\.len\(\)\.saturating_sub\(1\);", "to_rpc link_count", pa)
     need(t, r"\.skip\(1\)\s*\.step_by\(2\)\s*\.take\(\(if_meta\.len\(\) / 2\)\.saturating_sub\(1\)\)", "to_rpc internal_hops", pa)
+    need(t, r"epic_auth: rpc_path\.epic_auths\.map\(", "try_from_rpc keeps epic_auths", pa)
+    need(t, r"rpc_path\.link_type = if_meta\s*\.iter\(\)\s*\.step_by\(2\)", "to_rpc link_type per inter-AS link", pa)
+    need(t, r"seconds: meta\.expiration\.try_into\(\)\.unwrap_or\(i64::MAX\)", "to_rpc expiration saturates", pa)
     body = f"""From Coq Require Import NArith ZArith.
 Definition SIGALG_UNSPECIFIED : Z := {alg['Unspecified']}.
 Definition SIGALG_SHA256 : Z := {alg['EcdsaWithSha256']}.
